@@ -374,6 +374,21 @@ func ruleW1(r *Run) {
 			}
 		})
 	}
+	// calls of small helpers that broadcast count as wake sites of the caller
+	helpers := wakeHelpers(p)
+	for _, fn := range p.Funcs {
+		allInstrs(fn, func(ins ssa.Instruction) {
+			cc := instrCall(ins)
+			if cc == nil {
+				return
+			}
+			if cf := cc.StaticCallee(); cf != nil {
+				if h, ok := helpers[cf]; ok && cf != fn {
+					wakes = append(wakes, condUse{h.field, h.owner, ins, fn})
+				}
+			}
+		})
+	}
 	blocking := ctxBlockingFuncs(p)
 	type agg struct {
 		owner     string
@@ -1705,4 +1720,166 @@ func ruleWhoMayReceive(r *Run, id string, fk string, allowed ...string) {
 	if n == 0 {
 		r.Undecided("receives from "+fk, "none found")
 	}
+}
+
+// ruleW4: the waiters of these conds test their context and then call Wait, holding L in between. A waker that fires
+// when the context ends must take L around its Broadcast: without it the broadcast can fall between the waiter's
+// test and its Wait, reach nobody, and the waiter sleeps for ever (a goroutine that outlives Close).
+func ruleW4(r *Run, le *LockEngine, id string) {
+	r.Begin(id, "context-triggered wakers hold the lock: for every sync.Cond whose waiters poll a context before Wait, every Broadcast/Signal made by a context-triggered waker (AfterFunc closure, function that receives from Done(), code after a context-bounded blocking call) is made with the cond's L (or the mutex of the struct that owns the cond) held", 3)
+	p := r.P
+	type use struct {
+		field *types.Var
+		owner string
+		ins   ssa.Instruction
+		fn    *ssa.Function
+		recv  ssa.Value
+	}
+	var waits, wakes []use
+	for _, fn := range p.Funcs {
+		allInstrs(fn, func(ins ssa.Instruction) {
+			cc := instrCall(ins)
+			if cc == nil {
+				return
+			}
+			o := calleeObj(cc)
+			if o == nil || o.Pkg() == nil || o.Pkg().Path() != "sync" || recvNamed(o) != "Cond" {
+				return
+			}
+			args := callArgs(cc)
+			if len(args) == 0 {
+				return
+			}
+			f, owner := condFieldOf(args[0])
+			if f == nil {
+				return
+			}
+			switch o.Name() {
+			case "Wait":
+				waits = append(waits, use{f, owner, ins, fn, args[0]})
+			case "Broadcast", "Signal":
+				wakes = append(wakes, use{f, owner, ins, fn, args[0]})
+			}
+		})
+	}
+	polls := map[*types.Var]bool{}
+	for _, w := range waits {
+		allInstrs(w.fn, func(ins ssa.Instruction) {
+			if sel, ok := ins.(*ssa.Select); ok && !sel.Blocking {
+				for _, st := range sel.States {
+					if st.Dir == types.RecvOnly && doneCtx(st.Chan) != nil {
+						polls[w.field] = true
+					}
+				}
+			}
+		})
+	}
+	// calls of small helpers that broadcast are wake sites of the caller; whether the lock is held is decided inside the helper
+	helpers := wakeHelpers(p)
+	viaHelper := map[ssa.Instruction]wakeHelper{}
+	for _, fn := range p.Funcs {
+		allInstrs(fn, func(ins ssa.Instruction) {
+			cc := instrCall(ins)
+			if cc == nil {
+				return
+			}
+			if cf := cc.StaticCallee(); cf != nil {
+				if h, ok := helpers[cf]; ok && cf != fn {
+					wakes = append(wakes, use{h.field, h.owner, ins, fn, nil})
+					viaHelper[ins] = h
+				}
+			}
+		})
+	}
+	blocking := ctxBlockingFuncs(p)
+	n := map[string]int{}
+	for _, k := range wakes {
+		if !polls[k.field] {
+			continue
+		}
+		if _, isHelperBody := helpers[k.fn]; isHelperBody && k.recv != nil {
+			continue // judged at the helper's call sites
+		}
+		fn := k.fn
+		trig := isAfterFuncArg(fn) || hasDoneReceive(fn)
+		if !trig {
+			allInstrs(fn, func(ins ssa.Instruction) {
+				if c, ok := ins.(*ssa.Call); ok {
+					if cf := c.Call.StaticCallee(); cf != nil && blocking[cf] {
+						trig = true
+					}
+				}
+			})
+		}
+		if !trig {
+			continue
+		}
+		name := fnName(fn)
+		n[name]++
+		at := k.ins
+		recv := k.recv
+		if h, ok := viaHelper[k.ins]; ok {
+			at = h.at
+			recv = callArgs(instrCall(h.at))[0]
+		}
+		condPath := pathOf(recv).String()
+		ownerPath := condPath
+		if i := strings.LastIndexByte(condPath, '.'); i > 0 {
+			ownerPath = condPath[:i]
+		}
+		held := le.HeldAt(at)
+		ok := false
+		var hk []string
+		for key, mode := range held {
+			if mode == 0 {
+				continue
+			}
+			hk = append(hk, key)
+			if key == condPath+".L" || key == ownerPath || strings.HasPrefix(key, ownerPath+".") {
+				ok = true
+			}
+		}
+		sort.Strings(hk)
+		r.Check(fmt.Sprintf("%s wakes %s.%s #%d", name, k.owner, k.field.Name(), n[name]), ok, posOf(p, k.ins), name, fmt.Sprintf("Broadcast on %s by a context-triggered waker; locks held there: %v. Without the cond's lock the broadcast can land between a waiter's context test and its Wait and wake nobody", condPath, hk))
+	}
+}
+
+// wakeHelpers: module functions whose own body broadcasts/signals on a cond field (e.g. a method wake() that takes the
+// lock, broadcasts and releases it). A call of such a helper is a wake site of that cond in the caller.
+type wakeHelper struct {
+	field *types.Var
+	owner string
+	at    ssa.Instruction // the Broadcast inside the helper
+}
+
+func wakeHelpers(p *Prog) map[*ssa.Function]wakeHelper {
+	out := map[*ssa.Function]wakeHelper{}
+	for _, fn := range p.Funcs {
+		if fn.Parent() != nil || fn.Blocks == nil {
+			continue
+		}
+		n := 0
+		allInstrs(fn, func(ins ssa.Instruction) { n++ })
+		if n > 24 {
+			continue // a helper is small: lock, broadcast, unlock
+		}
+		allInstrs(fn, func(ins ssa.Instruction) {
+			cc := instrCall(ins)
+			if cc == nil {
+				return
+			}
+			o := calleeObj(cc)
+			if o == nil || o.Pkg() == nil || o.Pkg().Path() != "sync" || recvNamed(o) != "Cond" || (o.Name() != "Broadcast" && o.Name() != "Signal") {
+				return
+			}
+			args := callArgs(cc)
+			if len(args) == 0 {
+				return
+			}
+			if f, owner := condFieldOf(args[0]); f != nil {
+				out[fn] = wakeHelper{f, owner, ins}
+			}
+		})
+	}
+	return out
 }
